@@ -12,13 +12,14 @@ from .. import gen, threads
 
 def rfa_jobs(rng, k):
     out = []
-    for _ in range(k):
+    shared_groups = 0
+    while len(out) < k:
         strat = R.ALL[int(rng.integers(0, 6))]
         n = int(rng.choice([4, 8, 16, 32]))
         kw, _a = R.gen_params(rng, strat, n)
         x, y, _m = R.gen_series(rng, 8, 60, ties_share=0.3)
         via = bool(rng.integers(0, 3) == 0)
-        if rng.integers(0, 4) == 0 and len(out) + 3 <= k:
+        if shared_groups < 2 and len(out) + 3 <= k:
             # ONE strategy object asked for its series by several threads at once: rfa() does not change the object
             holder = {}
 
@@ -27,6 +28,7 @@ def rfa_jobs(rng, k):
                     holder["obj"] = R.cls(strat)(x.copy(), y.copy(), n, **kw)
                 return holder["obj"].rfa
             out += [("%s n=%d m=%d, one object shared by the threads" % (strat, n, len(x)), shared)] * 3
+            shared_groups += 1
             continue
 
         def factory(strat=strat, n=n, kw=kw, x=x, y=y, via=via):
